@@ -9,6 +9,8 @@
 use std::panic;
 
 mod c04;
+mod ck;
+mod graphs;
 mod c05;
 mod c07;
 mod c08;
@@ -25,6 +27,7 @@ pub struct Ctx {
     pub only: Option<String>,
     pub cases: u64,
     pub failing: u64,
+    pub per_class: std::collections::BTreeMap<String, u64>,
 }
 
 impl Ctx {
@@ -39,7 +42,11 @@ impl Ctx {
         self.cases += 1;
         if !ok {
             self.failing += 1;
-            if self.failing <= 20 {
+            // at most three cases per failure class are printed (a known finding can fail on many
+            // inputs; a different class must not be drowned out)
+            let k = self.per_class.entry(class.to_string()).or_insert(0);
+            *k += 1;
+            if *k <= 3 {
                 println!(
                     "{}",
                     serde_json::json!({"kind":"fail","case":case,"class":class,"obligations":obligations,
@@ -57,9 +64,15 @@ fn main() {
         std::process::exit(2);
     }
     let only = args.iter().position(|a| a == "--only").and_then(|i| args.get(i + 1).cloned());
-    let mut ctx = Ctx { only, cases: 0, failing: 0 };
+    let mut ctx = Ctx { only, cases: 0, failing: 0, per_class: Default::default() };
     panic::set_hook(Box::new(|_| {}));
     match args[1].as_str() {
+        "C01" => ck::c01(&mut ctx),
+        "C02" => ck::c02_c03_c11(&mut ctx, "c02"),
+        "C03" => ck::c02_c03_c11(&mut ctx, "c03"),
+        "C11" => ck::c02_c03_c11(&mut ctx, "c11"),
+        "C12" => ck::c12(&mut ctx),
+        "C13" => ck::c13(&mut ctx),
         "C04" => c04::run(&mut ctx),
         "C05" => c05::run(&mut ctx),
         "C07" => c07::run(&mut ctx),
@@ -74,6 +87,6 @@ fn main() {
             eprintln!("no oracle for {}", other);
         }
     }
-    println!("{}", serde_json::json!({"kind":"summary","cases":ctx.cases,"failing":ctx.failing}));
+    println!("{}", serde_json::json!({"kind":"summary","cases":ctx.cases,"failing":ctx.failing,"per_class":ctx.per_class}));
     std::process::exit(if ctx.failing > 0 { 1 } else { 0 });
 }
